@@ -484,4 +484,219 @@ theorem splits_expands {l : List Field} {R : List UInt8} {fs : List (List UInt8)
     exact Expands.fixed (by omega) (ih buf (pos + n) (by rw [e4]; exact e2.symm) (by omega))
 
 
+
+/-! ### components -/
+
+def compTypesFmt : Fmt → List CompType
+  | .name => [("C", 0)]
+  | .chA => [("U", 0)]
+  | .soa => [("C", 0), ("C", 0)]
+  | .minfo => [("C", 0), ("C", 0)]
+  | .mx => [("F", 2), ("C", 0)]
+  | .srv => [("F", 6), ("U", 0)]
+  | _ => []
+
+theorem components_eq (c t : Nat) (r : Bytes) : components c t r = componentsAux (compTypesFmt (fmtOf c t)) r := by
+  unfold components fmtOf
+  simp only [lookup, Gen.rdataComponentsArms, Gen.rdataComponentsDefault]
+  simp only [List.contains_cons, List.contains_nil, Bool.or_false, beq_iff_eq, Bool.and_true, Bool.and_eq_true, Bool.or_eq_true]
+  dispatch_cases t c with (simp_all [componentTypesOf, Gen.rdataComponentTypes, compTypesFmt])
+
+theorem parseU_of_prefix (b : Bytes) (w rest : List UInt8) (hb : b.toList = w ++ rest) (hw : WireName w) :
+    ∃ n, parseUncompressed b false = .ok ⟨w, n, w.length⟩ := by
+  obtain ⟨n, hl, h255⟩ := (wireName_iff w).mp hw
+  refine ⟨n, ?_⟩
+  unfold parseUncompressed
+  rw [uncompAux_track b 0 0 (by omega) (by omega)]
+  rw [(uncompAux_ok_iff b w.length n).mpr ⟨w, rest, hb, hl, rfl, h255⟩]
+  simp [hb]
+
+/-- the components the writer is handed for well-formed RDATA of each format (`fs` = its fields) -/
+def tagComps : Fmt → List (List UInt8) → List Comp
+  | .name, [a] => [.compressibleName a]
+  | .chA, [a, b] => [.uncompressibleName a, .other b]
+  | .soa, [a, b, c] => [.compressibleName a, .compressibleName b, .other c]
+  | .minfo, [a, b] => [.compressibleName a, .compressibleName b]
+  | .mx, [a, b] => [.other a, .compressibleName b]
+  | .srv, [a, b] => [.other a, .uncompressibleName b]
+  | _, _ => []
+
+theorem drop_toArray' (b : Bytes) (w rest : List UInt8) (hb : b.toList = w ++ rest) :
+    b.extract w.length b.size = rest.toArray := by
+  apply Array.toList_inj.mp
+  rw [toList_extract_from, hb]; simp
+
+theorem wireName_len_le (w rest : List UInt8) (b : Bytes) (hb : b.toList = w ++ rest) : w.length ≤ b.size := by
+  have := congrArg List.length hb; simp at this; omega
+
+theorem componentsAux_nil (r : Bytes) :
+    componentsAux [] r = .ok (if r.size = 0 then [] else [.other r.toList]) := by
+  unfold componentsAux; split <;> simp_all
+
+theorem components_name (r : Bytes) (fs : List (List UInt8)) (h : Splits [.name] r.toList fs) :
+    componentsAux (compTypesFmt .name) r = .ok (tagComps .name fs) := by
+  simp only [splits_name_iff, splits_nil_iff] at h
+  obtain ⟨w, rest, fs', hr, rfl, hw, rfl, rfl⟩ := h
+  obtain ⟨n, hp⟩ := parseU_of_prefix r w [] hr hw
+  have hle := wireName_len_le w [] r hr
+  simp only [compTypesFmt, componentsAux, hp, liftName, Out.mapErr, Out.bind_ok, sliceFrom_ok r _ hle,
+    drop_toArray' r w [] hr, tagComps]
+  simp
+
+
+theorem components_chA (r : Bytes) (fs : List (List UInt8)) (h : Splits [.name, .fixed 2] r.toList fs) :
+    componentsAux (compTypesFmt .chA) r = .ok (tagComps .chA fs) := by
+  simp only [splits_name_iff, splits_fixed_iff, splits_nil_iff] at h
+  obtain ⟨w, rest, fs', hr, rfl, hw, f, rest2, fs2, rfl, rfl, hf, rfl, rfl⟩ := h
+  obtain ⟨n, hp⟩ := parseU_of_prefix r w _ hr hw
+  have hle := wireName_len_le w _ r hr
+  simp only [compTypesFmt, componentsAux, hp, liftName, Out.mapErr, Out.bind_ok, sliceFrom_ok r _ hle,
+    drop_toArray' r w _ hr, tagComps]
+  simp [hf]
+
+theorem components_two_names (r : Bytes) (tail : List Field) (fs : List (List UInt8))
+    (h : Splits (.name :: .name :: tail) r.toList fs) :
+    ∃ a b rest fs', fs = a :: b :: fs' ∧ r.toList = a ++ (b ++ rest) ∧ Splits tail rest fs' ∧
+      componentsAux [("C", 0), ("C", 0)] r =
+        .ok (.compressibleName a :: .compressibleName b :: (if rest.length = 0 then [] else [.other rest])) := by
+  simp only [splits_name_iff] at h
+  obtain ⟨w, rest, fs', hr, rfl, hw, w2, rest2, fs2, rfl, rfl, hw2, htl⟩ := h
+  refine ⟨w, w2, rest2, fs2, rfl, hr, htl, ?_⟩
+  obtain ⟨n, hp⟩ := parseU_of_prefix r w _ hr hw
+  have hle := wireName_len_le w _ r hr
+  obtain ⟨n2, hp2⟩ := parseU_of_prefix (w2 ++ rest2).toArray w2 rest2 (by simp) hw2
+  have hle2 : w2.length ≤ (w2 ++ rest2).toArray.size := by simp
+  simp only [componentsAux, hp, liftName, Out.mapErr, Out.bind_ok, sliceFrom_ok r _ hle,
+    drop_toArray' r w _ hr, hp2, sliceFrom_ok _ _ hle2, drop_toArray' (w2 ++ rest2).toArray w2 rest2 (by simp)]
+  by_cases h0 : rest2.length = 0
+  · simp [h0]
+  · simp [h0]
+
+theorem components_soa (r : Bytes) (fs : List (List UInt8)) (h : Splits [.name, .name, .fixed 20] r.toList fs) :
+    componentsAux (compTypesFmt .soa) r = .ok (tagComps .soa fs) := by
+  obtain ⟨a, b, rest, fs', rfl, _, htl, hc⟩ := components_two_names r _ fs h
+  simp only [splits_fixed_iff, splits_nil_iff] at htl
+  obtain ⟨f, rest2, fs2, rfl, rfl, hf, rfl, rfl⟩ := htl
+  simp only [compTypesFmt, hc, tagComps]
+  simp [hf]
+
+theorem components_minfo (r : Bytes) (fs : List (List UInt8)) (h : Splits [.name, .name] r.toList fs) :
+    componentsAux (compTypesFmt .minfo) r = .ok (tagComps .minfo fs) := by
+  obtain ⟨a, b, rest, fs', rfl, _, htl, hc⟩ := components_two_names r _ fs h
+  simp only [splits_nil_iff] at htl
+  obtain ⟨rfl, rfl⟩ := htl
+  simp only [compTypesFmt, hc, tagComps]
+  simp
+
+theorem components_fixed_name (k : Nat) (tag : String) (htag : tag = "C" ∨ tag = "U") (r : Bytes)
+    (fs : List (List UInt8)) (h : Splits [.fixed k, .name] r.toList fs) :
+    ∃ f w, fs = [f, w] ∧ f.length = k ∧
+      componentsAux [("F", k), (tag, 0)] r =
+        .ok [.other f, if tag = "C" then .compressibleName w else .uncompressibleName w] := by
+  simp only [splits_name_iff, splits_fixed_iff, splits_nil_iff] at h
+  obtain ⟨f, rest, fs', hr, rfl, hf, w, rest2, fs2, rfl, rfl, hw, rfl, rfl⟩ := h
+  refine ⟨f, w, rfl, hf, ?_⟩
+  have hk : k ≤ r.size := by have := congrArg List.length hr; simp at this; omega
+  have hx : r.extract k r.size = (w ++ []).toArray := by
+    apply Array.toList_inj.mp
+    rw [toList_extract_from, hr, ← hf]; simp
+  obtain ⟨n, hp⟩ := parseU_of_prefix (w ++ []).toArray w [] (by simp) hw
+  have hle2 : w.length ≤ (w ++ []).toArray.size := by simp
+  have hne : ¬ (tag = "F") := by rcases htag with h | h <;> (subst h; decide)
+  have hf0 : (r.extract 0 k).toList = f := by simp [hr, ← hf]
+  simp only [componentsAux, hk, if_true, sliceFrom_ok r k hk, Out.bind_ok, hx, hne, if_false, htag, hp, liftName,
+    Out.mapErr, sliceFrom_ok _ _ hle2, drop_toArray' (w ++ []).toArray w [] (by simp), hf0]
+  simp
+
+theorem components_mx (r : Bytes) (fs : List (List UInt8)) (h : Splits [.fixed 2, .name] r.toList fs) :
+    componentsAux (compTypesFmt .mx) r = .ok (tagComps .mx fs) := by
+  obtain ⟨f, w, rfl, _, hc⟩ := components_fixed_name 2 "C" (Or.inl rfl) r fs h
+  simp only [compTypesFmt, hc, tagComps]; simp
+
+theorem components_srv (r : Bytes) (fs : List (List UInt8)) (h : Splits [.fixed 6, .name] r.toList fs) :
+    componentsAux (compTypesFmt .srv) r = .ok (tagComps .srv fs) := by
+  obtain ⟨f, w, rfl, _, hc⟩ := components_fixed_name 6 "U" (Or.inr rfl) r fs h
+  simp only [compTypesFmt, hc, tagComps]; simp
+
+
+/-! ### what the reader needs from the writer -/
+
+/-- the message holds the components `comps` from `pos` to `e`: each name in *some* encoding that
+    decodes (RFC 1035 §4.1.4) to it, everything else verbatim -/
+inductive Written (buf : Bytes) : List Comp → Nat → Nat → Prop
+  | nil {pos} : Written buf [] pos pos
+  | cname {w n k rest pos e} (hd : DecodesName buf pos w n k) (tl : Written buf rest (pos + k) e) :
+      Written buf (.compressibleName w :: rest) pos e
+  | uname {w n rest pos e} (hd : DecodesName buf pos w n w.length) (tl : Written buf rest (pos + w.length) e) :
+      Written buf (.uncompressibleName w :: rest) pos e
+  | other {o rest pos e} (hin : pos + o.length ≤ buf.size) (ho : (buf.extract pos (pos + o.length)).toList = o)
+      (tl : Written buf rest (pos + o.length) e) : Written buf (.other o :: rest) pos e
+
+/-- `comps` are the fields `fs` of layout `l`, names tagged either way -/
+inductive Tagged : List Field → List (List UInt8) → List Comp → Prop
+  | nil : Tagged [] [] []
+  | cname {ls fs cs w} (tl : Tagged ls fs cs) : Tagged (.name :: ls) (w :: fs) (.compressibleName w :: cs)
+  | uname {ls fs cs w} (tl : Tagged ls fs cs) : Tagged (.name :: ls) (w :: fs) (.uncompressibleName w :: cs)
+  | fixed {ls fs cs f n} (hf : f.length = n) (tl : Tagged ls fs cs) :
+      Tagged (.fixed n :: ls) (f :: fs) (.other f :: cs)
+
+theorem written_expands {l : List Field} {fs : List (List UInt8)} {cs : List Comp} (ht : Tagged l fs cs) :
+    ∀ {buf : Bytes} {pos e : Nat}, Written buf cs pos e → Expands buf l pos fs.flatten e := by
+  induction ht with
+  | nil => intro buf pos e hw; cases hw; exact Expands.nil
+  | cname tl ih =>
+    intro buf pos e hw
+    cases hw with
+    | cname hd tl' => simpa using Expands.name hd (ih tl')
+  | uname tl ih =>
+    intro buf pos e hw
+    cases hw with
+    | uname hd tl' => simpa using Expands.name hd (ih tl')
+  | @fixed ls fs cs f n hf tl ih =>
+    intro buf pos e hw
+    cases hw with
+    | other hin ho tl' =>
+      subst hf
+      have := Expands.fixed hin (ih tl')
+      rw [ho] at this
+      simpa using this
+
+theorem splits_flatten {l : List Field} {R : List UInt8} {fs : List (List UInt8)} (h : Splits l R fs) :
+    fs.flatten = R := split?_flatten l R fs ((split?_iff l R fs).mpr h)
+
+theorem tagged_tagComps (f : Fmt) (l : List Field) (hl : layoutOf f = some l) (R : List UInt8)
+    (fs : List (List UInt8)) (h : Splits l R fs) : Tagged l fs (tagComps f fs) := by
+  cases f <;> simp only [layoutOf, Option.some.injEq, reduceCtorEq] at hl <;> subst hl <;>
+    simp only [splits_name_iff, splits_fixed_iff, splits_nil_iff] at h
+  · obtain ⟨w, rest, fs', _, rfl, _, rfl, rfl⟩ := h
+    exact Tagged.cname Tagged.nil
+  · obtain ⟨w, rest, fs', _, rfl, _, f, rest2, fs2, _, rfl, hf, _, rfl⟩ := h
+    exact Tagged.uname (Tagged.fixed hf Tagged.nil)
+  · obtain ⟨w, rest, fs', _, rfl, _, w2, rest2, fs2, _, rfl, _, f, rest3, fs3, _, rfl, hf, _, rfl⟩ := h
+    exact Tagged.cname (Tagged.cname (Tagged.fixed hf Tagged.nil))
+  · obtain ⟨w, rest, fs', _, rfl, _, w2, rest2, fs2, _, rfl, _, _, rfl⟩ := h
+    exact Tagged.cname (Tagged.cname Tagged.nil)
+  · obtain ⟨f, rest, fs', _, rfl, hf, w, rest2, fs2, _, rfl, _, _, rfl⟩ := h
+    exact Tagged.fixed hf (Tagged.cname Tagged.nil)
+  · obtain ⟨f, rest, fs', _, rfl, hf, w, rest2, fs2, _, rfl, _, _, rfl⟩ := h
+    exact Tagged.fixed hf (Tagged.uname Tagged.nil)
+
+/-- `Rdata::components` on well-formed RDATA of a name-bearing format: its fields, tagged -/
+theorem componentsFmt_valid (f : Fmt) (l : List Field) (hl : layoutOf f = some l) (r : Bytes)
+    (fs : List (List UInt8)) (h : Splits l r.toList fs) :
+    componentsAux (compTypesFmt f) r = .ok (tagComps f fs) := by
+  cases f <;> simp only [layoutOf, Option.some.injEq, reduceCtorEq] at hl <;> subst hl
+  · exact components_name r fs h
+  · exact components_chA r fs h
+  · exact components_soa r fs h
+  · exact components_minfo r fs h
+  · exact components_mx r fs h
+  · exact components_srv r fs h
+
+theorem extract_extract_prefix (msg : Bytes) (e i j : Nat) (hj : j ≤ e) (he : e ≤ msg.size) :
+    ((msg.extract 0 e).extract i j).toList = (msg.extract i j).toList := by
+  simp
+  omega
+
+
 end QV.Rdata
